@@ -206,9 +206,9 @@ KNOWN = [
   '{ getHuman { name @skip(if: true) name } }', None, None),
  ("KF-C01-19", "op.directiveOnFragment", "directives on inline fragments and fragment spreads are dropped when the fragment is unfolded",
   '{ getHuman { ... @include(if: false) { name } nick } }', None, None),
- ("KF-C01-21", "op.nodeRoot", "node(id:) root: fields selected directly on Node are dropped",
+ ("KF-C01-21", "op.nodeRootDirectField", "node(id:) root: fields selected directly on Node are dropped",
   '{ node(id: "Human_1") { id } }', None, None),
- ("KF-C01-22", "op.nodeRoot", "node(id:) root: nested selections are not split across services",
+ ("KF-C01-22", "op.nodeRootNestedSelection", "node(id:) root: nested selections are not split across services",
   '{ node(id: "Human_1") { ... on Human { best { phone } } } }', None, None),
  ("KF-C01-25", "op.helperLostToFragmentScrub", "a client-selected id is scrubbed when a fragment on the type does not repeat it",
   '{ getHumans { id ... on Human { phone } } }', None, None),
@@ -219,12 +219,23 @@ KNOWN = [
  ("KF-C01-29", "op.interfaceNestedSelection", "selections nested below an interface-typed field are not split across services",
   '{ getBeings { friend { age } } }', None, "if2"),
 ]
+KNOWN += [
+ ("KF-C01-33", "op.nodeRootSeveralTypeFragments", "node(id:) root with several type fragments: an id selected in one fragment is asked for (and returned for) every type; whether it is scrubbed depends on map iteration order",
+  '{ node(id: "Planet_1") { ... on Planet { mass } ... on Human { id } } }', None, "if"),
+ ("KF-C01-34", "op.nodeRootHelperId", "node(id:) root: the helper __typename is dropped with the fields selected directly on Node, so the helper id of a type fragment is scrubbed or not depending on map iteration order",
+  '{ node(id: "Human_1") { ... on Human { name } } }', None, "if"),
+]
 for kid, gate, title, q, v, wname in KNOWN:
     w = {"if": ifworld, "if2": ifworld2, "u": uworld}[wname]() if wname else None
     c = exec_case("C01", "", q, v, w=w)
     c["title"] = title
     c["gate"] = gate
     CASES["known/%s.json" % kid] = c
+
+
+# findings whose smallest known reproduction is a generated world: kept as files under tools/cases_src/
+for _name in sorted(os.listdir(os.path.join(os.path.dirname(os.path.abspath(__file__)), "cases_src"))):
+    CASES["known/" + _name] = json.load(open(os.path.join(os.path.dirname(os.path.abspath(__file__)), "cases_src", _name)))
 
 
 def conflict_case(sig, conflicts, add0, add1, neutral=None, add2=None):
